@@ -35,6 +35,8 @@ structure St where
   err : String := "-"
   capirc : String := "-"
   attrMode : Nat := 0
+  fixFinal : Bool := true
+  fixTrunc : Bool := true
   langof : List Nat := []
   injs : List Inj := []
   locals : List (Nat × Nat × Nat × Nat) := []
@@ -85,35 +87,33 @@ def attrOfMode (mode h : Nat) : Bytes :=
     else "class=c" ++ toString h
   str.toUTF8.toList.map (·.toNat)
 
-def variantName (o f : Bool) : String :=
-  if o && f then "both" else if o then "orig" else if f then "fixed" else "NEITHER"
+/-- The port of `LossyUtf8` that the probed implementation follows (`probe lossy` line of the
+explorer: one bit per repaired defect). -/
+def decOf (s : St) : Bytes → Bytes := lossyV s.fixFinal s.fixTrunc
 
 def runLossy (s : St) : String :=
-  let o := decide (lossy s.bytes = s.impl)
-  let f := decide (lossyFixed s.bytes = s.impl)
+  let m := decide (decOf s s.bytes = s.impl)
   let spec := lossySpec s.bytes
   let specOk := decide (spec = s.std)
   let jOk := decide (s.impl = spec)
-  let cause := if jOk then "-" else if o && tailLoss s.bytes then
+  let cause := if jOk then "-" else if m && tailLoss s.bytes then
       (if endsTruncated s.bytes then "lossy-chunk-end-truncated" else "lossy-chunk-end-invalid") else "other"
-  s!"{s.id} kind=L corr={variantName o f} spec={if specOk then "ok" else "DIFF"} judge={if jOk then "ok" else "FAIL"} cause={cause} loss={tailLoss s.bytes}"
+  s!"{s.id} kind=L corr={if m then "ok" else "DIFF"} spec={if specOk then "ok" else "DIFF"} judge={if jOk then "ok" else "FAIL"} cause={cause} loss={tailLoss s.bytes}"
 
 def chunksOf (evs : List Ev) (src : Bytes) : List Bytes :=
   evs.filterMap fun | .source a b => some (sliceT src a b) | _ => none
 
-/-- Compare the model renderer (both decoders) with the implementation's html and line offsets. -/
+/-- Compare the model renderer (with the probed decoder) with the implementation's html and line offsets. -/
 def corrRender (s : St) : String × Bool :=
   let cfg : RCfg := { attr := attrOfMode s.attrMode, crh := s.crh }
   match s.html with
   | none =>
-    (if (render lossy cfg s.evs s.src).isNone then "both" else "NEITHER-model-does-not-panic", true)
+    (if (render lossy cfg s.evs s.src).isNone then "ok" else "DIFF-model-does-not-panic", true)
   | some html =>
     let same (r : Option RState) : Bool := match r with
       | some st => decide (st.html = html) && decide (st.lineOffsets = s.lines)
       | none => false
-    let o := same (render lossy cfg s.evs s.src)
-    let f := same (render lossyFixed cfg s.evs s.src)
-    (variantName o f, false)
+    (if same (render (decOf s) cfg s.evs s.src) then "ok" else "DIFF", false)
 
 def htmlJudge (s : St) : String × String :=
   match s.html with
@@ -123,7 +123,7 @@ def htmlJudge (s : St) : String × String :=
     else
       let chunks := chunksOf s.evs s.src
       let cause :=
-        if judgeHtml lossy s.evs s.src html && chunks.any tailLoss then
+        if judgeHtml (decOf s) s.evs s.src html && chunks.any tailLoss then
           (if chunks.any endsTruncated then "lossy-chunk-end-truncated" else "lossy-chunk-end-invalid")
         else "other"
       ("FAIL", cause)
@@ -289,7 +289,11 @@ def runMerge (s : St) : String :=
 
 def step (s : St) (line : String) : IO St := do
   match line.splitOn " " with
-  | ["case", id] => return { id := id }
+  | ["case", id] => return { id := id, fixFinal := s.fixFinal, fixTrunc := s.fixTrunc }
+  | ["probe", "lossy", ff, ft, raw] =>
+    -- one probe per repaired defect: 1 = the fix is in effect, 0 = the old behaviour, anything else = neither
+    IO.println s!"probe kind=V fixfinal={ff} fixtrunc={ft} raw={raw}"
+    return { s with fixFinal := ff != "0", fixTrunc := ft != "0" }
   | ["bytes", h] => return { s with bytes := unhx h }
   | ["impl", h] => return { s with impl := unhx h }
   | ["std", h] => return { s with std := unhx h }
